@@ -495,9 +495,9 @@ static void case_frontend(Rng& rng, uint64_t index)
 static void setup()
 {
 	add_generator("d17_witnesses", 8, case_d17_witness);
-	add_generator("smooth_integrands", ctx().count(540, 54000), case_accuracy, 900.0);
-	add_generator("constants", ctx().count(360, 36000), case_constant, 900.0);
-	add_generator("history_pairs", ctx().count(300, 30000), case_history, 1200.0);
-	add_generator("front_ends_2d_3d", ctx().count(240, 24000), case_frontend, 900.0);
+	add_generator("smooth_integrands", ctx().count(1350, 54000), case_accuracy, 900.0);
+	add_generator("constants", ctx().count(900, 36000), case_constant, 900.0);
+	add_generator("history_pairs", ctx().count(750, 30000), case_history, 1200.0);
+	add_generator("front_ends_2d_3d", ctx().count(600, 24000), case_frontend, 900.0);
 }
 VERIF_MAIN("C14", setup)
